@@ -57,6 +57,11 @@ def judge_triple(ctx, case):
         route = case.get("import_route", "from_extended_key")
         if route == "from_extended_key":
             V = PaperWallet.from_extended_key(extended_key=xpub)
+        elif route == "str-default-flag":
+            # ... or on a node parsed WITHOUT telling the parser the network (its flag stays at the default) while the wallet
+            # is told: what the WALLET emits follows the wallet's network
+            from btc_hd_wallet.bip32 import PubKeyNode
+            V = PaperWallet(master=PubKeyNode.parse(xpub), testnet=tn)
         else:
             # the watch-only wallet is built on a node parsed by the caller: from the string, the raw bytes, a stream
             # positioned behind a header, or the second record of a stream of exported keys
@@ -94,6 +99,8 @@ def judge_triple(ctx, case):
             ctx.judge("public_data", False, dict(case, sub=sub), "node", e, cls="sub|raised", mech="C14.public_data.raised")
             continue
         b = bridge.compare_node(vn, ref, tn, False)
+        if route == "str-default-flag":
+            b = [x for x in b if x[0] != "testnet"]      # (the node-level flag is whatever the caller's parse call left there)
         if vn.fingerprint() != full.fingerprint() or vn.fingerprint() != wn.fingerprint():
             b.append(("fingerprint", full.fingerprint(), vn.fingerprint()))
         if bytes(vn.key) != wn.public_key.sec() or bytes(vn.chain_code) != bytes(wn.chain_code) or \
@@ -209,6 +216,8 @@ def judge_triple(ctx, case):
             for j, vn in enumerate(vl[:e0 - s0]):
                 rn = rb32.ckd_pub(refpar, s0 + j)
                 b = bridge.compare_node(vn, rn, tn, False)
+                if route == "str-default-flag":
+                    b = [x for x in b if x[0] != "testnet"]
                 if b:
                     lb.append(("entry%d.%s" % (j, b[0][0]), b[0][1], b[0][2]))
                     break
@@ -265,7 +274,7 @@ def gen_case(rnd, j):
         subs.append([rnd.choice([0, 1, H - 1, rnd.randrange(0, H)]) for _ in range(L)])
     return {"seed": gen.rbytes(rnd, rnd.choice([16, 32, 64])), "testnet": tn, "export_path": ep,
             "purpose": [44, 49, 84][(j // 2) % 3], "subpaths": subs, "full_first": rnd.random() < 0.75,
-            "import_route": rnd.choice(["from_extended_key", "from_extended_key", "str", "bytes", "stream", "stream-offset", "stream-second"])}
+            "import_route": rnd.choice(["from_extended_key", "from_extended_key", "str", "bytes", "stream", "stream-offset", "stream-second", "str-default-flag", "str-default-flag"])}
 
 
 def run(ctx):
